@@ -22,6 +22,9 @@ func init() {
 // usePtrForms: declare through the *Ptr entry points (BoolPtr, IntsPtr, ..) instead of the value-returning ones
 var usePtrForms bool
 
+// useHideValue: declare with HideValue: true (the default is not shown in the help; nothing else changes)
+var useHideValue bool
+
 type vtype struct {
 	name  string
 	multi bool
@@ -47,14 +50,16 @@ var vtypes = []*vtype{
 			switch {
 			case usePtrForms && asOpt:
 				p = new(bool)
-				cmd.BoolPtr(p, cli.BoolOpt{Name: name, EnvVar: env, Value: nz, SetByUser: sbu})
+				*p = !nz // the variable already holds something else: the declaration stores the declared default
+				cmd.BoolPtr(p, cli.BoolOpt{Name: name, EnvVar: env, Value: nz, SetByUser: sbu, HideValue: useHideValue})
 			case usePtrForms:
 				p = new(bool)
-				cmd.BoolPtr(p, cli.BoolArg{Name: name, EnvVar: env, Value: nz, SetByUser: sbu})
+				*p = !nz // the variable already holds something else: the declaration stores the declared default
+				cmd.BoolPtr(p, cli.BoolArg{Name: name, EnvVar: env, Value: nz, SetByUser: sbu, HideValue: useHideValue})
 			case asOpt:
-				p = cmd.Bool(cli.BoolOpt{Name: name, EnvVar: env, Value: nz, SetByUser: sbu})
+				p = cmd.Bool(cli.BoolOpt{Name: name, EnvVar: env, Value: nz, SetByUser: sbu, HideValue: useHideValue})
 			default:
-				p = cmd.Bool(cli.BoolArg{Name: name, EnvVar: env, Value: nz, SetByUser: sbu})
+				p = cmd.Bool(cli.BoolArg{Name: name, EnvVar: env, Value: nz, SetByUser: sbu, HideValue: useHideValue})
 			}
 			return func() string { return fmt.Sprint(*p) }
 		},
@@ -66,14 +71,16 @@ var vtypes = []*vtype{
 			switch {
 			case usePtrForms && asOpt:
 				p = new(string)
-				cmd.StringPtr(p, cli.StringOpt{Name: name, EnvVar: env, Value: v, SetByUser: sbu})
+				*p = "preset"
+				cmd.StringPtr(p, cli.StringOpt{Name: name, EnvVar: env, Value: v, SetByUser: sbu, HideValue: useHideValue})
 			case usePtrForms:
 				p = new(string)
-				cmd.StringPtr(p, cli.StringArg{Name: name, EnvVar: env, Value: v, SetByUser: sbu})
+				*p = "preset"
+				cmd.StringPtr(p, cli.StringArg{Name: name, EnvVar: env, Value: v, SetByUser: sbu, HideValue: useHideValue})
 			case asOpt:
-				p = cmd.String(cli.StringOpt{Name: name, EnvVar: env, Value: v, SetByUser: sbu})
+				p = cmd.String(cli.StringOpt{Name: name, EnvVar: env, Value: v, SetByUser: sbu, HideValue: useHideValue})
 			default:
-				p = cmd.String(cli.StringArg{Name: name, EnvVar: env, Value: v, SetByUser: sbu})
+				p = cmd.String(cli.StringArg{Name: name, EnvVar: env, Value: v, SetByUser: sbu, HideValue: useHideValue})
 			}
 			return func() string { return *p }
 		},
@@ -85,14 +92,16 @@ var vtypes = []*vtype{
 			switch {
 			case usePtrForms && asOpt:
 				p = new(int)
-				cmd.IntPtr(p, cli.IntOpt{Name: name, EnvVar: env, Value: v, SetByUser: sbu})
+				*p = 8080
+				cmd.IntPtr(p, cli.IntOpt{Name: name, EnvVar: env, Value: v, SetByUser: sbu, HideValue: useHideValue})
 			case usePtrForms:
 				p = new(int)
-				cmd.IntPtr(p, cli.IntArg{Name: name, EnvVar: env, Value: v, SetByUser: sbu})
+				*p = 8080
+				cmd.IntPtr(p, cli.IntArg{Name: name, EnvVar: env, Value: v, SetByUser: sbu, HideValue: useHideValue})
 			case asOpt:
-				p = cmd.Int(cli.IntOpt{Name: name, EnvVar: env, Value: v, SetByUser: sbu})
+				p = cmd.Int(cli.IntOpt{Name: name, EnvVar: env, Value: v, SetByUser: sbu, HideValue: useHideValue})
 			default:
-				p = cmd.Int(cli.IntArg{Name: name, EnvVar: env, Value: v, SetByUser: sbu})
+				p = cmd.Int(cli.IntArg{Name: name, EnvVar: env, Value: v, SetByUser: sbu, HideValue: useHideValue})
 			}
 			return func() string { return fmt.Sprint(*p) }
 		},
@@ -104,14 +113,16 @@ var vtypes = []*vtype{
 			switch {
 			case usePtrForms && asOpt:
 				p = new(float64)
-				cmd.Float64Ptr(p, cli.Float64Opt{Name: name, EnvVar: env, Value: v, SetByUser: sbu})
+				*p = 8080.5
+				cmd.Float64Ptr(p, cli.Float64Opt{Name: name, EnvVar: env, Value: v, SetByUser: sbu, HideValue: useHideValue})
 			case usePtrForms:
 				p = new(float64)
-				cmd.Float64Ptr(p, cli.Float64Arg{Name: name, EnvVar: env, Value: v, SetByUser: sbu})
+				*p = 8080.5
+				cmd.Float64Ptr(p, cli.Float64Arg{Name: name, EnvVar: env, Value: v, SetByUser: sbu, HideValue: useHideValue})
 			case asOpt:
-				p = cmd.Float64(cli.Float64Opt{Name: name, EnvVar: env, Value: v, SetByUser: sbu})
+				p = cmd.Float64(cli.Float64Opt{Name: name, EnvVar: env, Value: v, SetByUser: sbu, HideValue: useHideValue})
 			default:
-				p = cmd.Float64(cli.Float64Arg{Name: name, EnvVar: env, Value: v, SetByUser: sbu})
+				p = cmd.Float64(cli.Float64Arg{Name: name, EnvVar: env, Value: v, SetByUser: sbu, HideValue: useHideValue})
 			}
 			return func() string { return fmt.Sprint(*p) }
 		},
@@ -126,14 +137,16 @@ var vtypes = []*vtype{
 			switch {
 			case usePtrForms && asOpt:
 				p = new([]string)
-				cmd.StringsPtr(p, cli.StringsOpt{Name: name, EnvVar: env, Value: v, SetByUser: sbu})
+				*p = []string{"preset"}
+				cmd.StringsPtr(p, cli.StringsOpt{Name: name, EnvVar: env, Value: v, SetByUser: sbu, HideValue: useHideValue})
 			case usePtrForms:
 				p = new([]string)
-				cmd.StringsPtr(p, cli.StringsArg{Name: name, EnvVar: env, Value: v, SetByUser: sbu})
+				*p = []string{"preset"}
+				cmd.StringsPtr(p, cli.StringsArg{Name: name, EnvVar: env, Value: v, SetByUser: sbu, HideValue: useHideValue})
 			case asOpt:
-				p = cmd.Strings(cli.StringsOpt{Name: name, EnvVar: env, Value: v, SetByUser: sbu})
+				p = cmd.Strings(cli.StringsOpt{Name: name, EnvVar: env, Value: v, SetByUser: sbu, HideValue: useHideValue})
 			default:
-				p = cmd.Strings(cli.StringsArg{Name: name, EnvVar: env, Value: v, SetByUser: sbu})
+				p = cmd.Strings(cli.StringsArg{Name: name, EnvVar: env, Value: v, SetByUser: sbu, HideValue: useHideValue})
 			}
 			return func() string { return fmt.Sprintf("%q", *p) }
 		},
@@ -148,14 +161,16 @@ var vtypes = []*vtype{
 			switch {
 			case usePtrForms && asOpt:
 				p = new([]int)
-				cmd.IntsPtr(p, cli.IntsOpt{Name: name, EnvVar: env, Value: v, SetByUser: sbu})
+				*p = []int{8080}
+				cmd.IntsPtr(p, cli.IntsOpt{Name: name, EnvVar: env, Value: v, SetByUser: sbu, HideValue: useHideValue})
 			case usePtrForms:
 				p = new([]int)
-				cmd.IntsPtr(p, cli.IntsArg{Name: name, EnvVar: env, Value: v, SetByUser: sbu})
+				*p = []int{8080}
+				cmd.IntsPtr(p, cli.IntsArg{Name: name, EnvVar: env, Value: v, SetByUser: sbu, HideValue: useHideValue})
 			case asOpt:
-				p = cmd.Ints(cli.IntsOpt{Name: name, EnvVar: env, Value: v, SetByUser: sbu})
+				p = cmd.Ints(cli.IntsOpt{Name: name, EnvVar: env, Value: v, SetByUser: sbu, HideValue: useHideValue})
 			default:
-				p = cmd.Ints(cli.IntsArg{Name: name, EnvVar: env, Value: v, SetByUser: sbu})
+				p = cmd.Ints(cli.IntsArg{Name: name, EnvVar: env, Value: v, SetByUser: sbu, HideValue: useHideValue})
 			}
 			return func() string { return fmt.Sprint(*p) }
 		},
@@ -176,14 +191,16 @@ var vtypes = []*vtype{
 			switch {
 			case usePtrForms && asOpt:
 				p = new([]float64)
-				cmd.Floats64Ptr(p, cli.Floats64Opt{Name: name, EnvVar: env, Value: v, SetByUser: sbu})
+				*p = []float64{8080.5}
+				cmd.Floats64Ptr(p, cli.Floats64Opt{Name: name, EnvVar: env, Value: v, SetByUser: sbu, HideValue: useHideValue})
 			case usePtrForms:
 				p = new([]float64)
-				cmd.Floats64Ptr(p, cli.Floats64Arg{Name: name, EnvVar: env, Value: v, SetByUser: sbu})
+				*p = []float64{8080.5}
+				cmd.Floats64Ptr(p, cli.Floats64Arg{Name: name, EnvVar: env, Value: v, SetByUser: sbu, HideValue: useHideValue})
 			case asOpt:
-				p = cmd.Floats64(cli.Floats64Opt{Name: name, EnvVar: env, Value: v, SetByUser: sbu})
+				p = cmd.Floats64(cli.Floats64Opt{Name: name, EnvVar: env, Value: v, SetByUser: sbu, HideValue: useHideValue})
 			default:
-				p = cmd.Floats64(cli.Floats64Arg{Name: name, EnvVar: env, Value: v, SetByUser: sbu})
+				p = cmd.Floats64(cli.Floats64Arg{Name: name, EnvVar: env, Value: v, SetByUser: sbu, HideValue: useHideValue})
 			}
 			return func() string { return fmt.Sprint(*p) }
 		},
@@ -197,7 +214,7 @@ var vtypes = []*vtype{
 }
 
 // states of one environment variable
-var envStates = []string{"unset", "empty", "valid", "invalid", "valid-list-blanks", "invalid-elem", "list-empty-item"}
+var envStates = []string{"unset", "empty", "valid", "invalid", "valid-list-blanks", "invalid-elem", "list-empty-item", "padded-single"}
 
 // envValue returns (set, raw value, tokens when valid) for a state.
 func envValue(t *vtype, state string, which int) (set bool, raw string, tokens []string, ok bool) {
@@ -228,6 +245,16 @@ func envValue(t *vtype, state string, which int) (set bool, raw string, tokens [
 			return true, "", nil, false
 		}
 		return true, v + "," + t.invalid, nil, false
+	case "padded-single":
+		// a single-valued variable takes the environment content as it is: blanks around a number or a bool make it
+		// invalid for the type (strconv), blanks around a string belong to the string
+		if t.multi {
+			return true, "", nil, false
+		}
+		if t.name == "string" {
+			return true, " " + v + " ", []string{" " + v + " "}, true
+		}
+		return true, " " + v + " ", nil, false
 	case "list-empty-item":
 		// "v," : two items, the second empty - a valid list of strings, an invalid list of numbers
 		if !t.multi {
@@ -251,6 +278,8 @@ func applicable(t *vtype, state string) bool {
 		return t.multi && t.invalid != ""
 	case "list-empty-item":
 		return t.multi
+	case "padded-single":
+		return !t.multi
 	}
 	return true
 }
@@ -318,11 +347,45 @@ func runValues(c *Ctx) {
 							valuesCase(c, t, asOpt, nz == 1, el, cmdlines[ci], cmdvals[ci], false)
 							valuesCase(c, t, asOpt, nz == 1, el, cmdlines[ci], cmdvals[ci], true)
 						}
-						usePtrForms = false
+						// HideValue only changes the help text
+						usePtrForms, useHideValue = false, true
+						valuesCase(c, t, asOpt, nz == 1, el, cmdlines[ci], cmdvals[ci], false)
+						usePtrForms, useHideValue = false, false
 					}
 				}
 			}
 		}
+	}
+	// a command-line value that spells exactly what the variable already holds (its default, its environment value)
+	// is a value given by the user all the same
+	if c.Shard == 0 && c.Begin("values-same-as-current") {
+		n := 0
+		for _, t := range vtypes {
+			dtok := map[string]string{"bool": "true", "string": "dflt", "int": "7", "float64": "1.5"}[t.name]
+			if dtok == "" {
+				continue
+			}
+			for _, asOpt := range []bool{true, false} {
+				for _, ptr := range []bool{false, true} {
+					usePtrForms = ptr
+					for _, v := range []struct {
+						tok string
+						env []string
+					}{{dtok, nil}, {t.valid, []string{"valid"}}} {
+						lines := [][]string{{v.tok}}
+						if asOpt {
+							lines = optSpellings(t, v.tok)
+						}
+						for _, l := range lines {
+							n++
+							valuesCase(c, t, asOpt, true, v.env, l, []string{v.tok}, false)
+						}
+					}
+				}
+				usePtrForms = false
+			}
+		}
+		c.Note("same as current", fmt.Sprintf("%d cases: single-valued types, the command line spells the non-zero default / the environment value the variable already holds", n))
 	}
 	c.Note("product", "7 built-in types x {option `[-x...]`, argument `[X...]`} x default {zero, non-zero} x environment lists of 0/1/2 variables each in "+strings.Join(envStates, "/")+" (where the type has such values) x {value-returning, *Ptr} declaration forms x command lines giving the value 0, 1 or 2 times in every spelling (-x=v, -x v, -xv, --xx=v, --xx v; flags: -x, --xx, -x=true, --xx=true, -x=false, --xx=false)")
 }
@@ -340,6 +403,7 @@ func replayValues(c *Ctx, cs Case) {
 			nz, _ := cs["nonzero"].(bool)
 			nested, _ := cs["nested"].(bool)
 			usePtrForms, _ = cs["ptr"].(bool)
+			useHideValue, _ = cs["hide_value"].(bool)
 			valuesCase(c, t, opt, nz, cStrs(cs, "env"), cStrs(cs, "cmdline"), cStrs(cs, "cmdvals"), nested)
 		}
 	}
@@ -418,8 +482,11 @@ func valuesCase(c *Ctx, t *vtype, asOpt, nz bool, envList, cmdline, cmdvals []st
 	if usePtrForms {
 		key += " ptr-form"
 	}
+	if useHideValue {
+		key += " hide-value"
+	}
 	cs := func() Case {
-		return Case{"type": t.name, "opt": asOpt, "nonzero": nz, "env": envList, "cmdline": cmdline, "cmdvals": cmdvals, "nested": nested, "ptr": usePtrForms}
+		return Case{"type": t.name, "opt": asOpt, "nonzero": nz, "env": envList, "cmdline": cmdline, "cmdvals": cmdvals, "nested": nested, "ptr": usePtrForms, "hide_value": useHideValue}
 	}
 	offers := 0
 	if len(cmdvals) > 0 {
